@@ -50,6 +50,8 @@
 #include <csignal>
 #include <unistd.h>
 #include <sys/wait.h>
+#include <cstring>
+#include "watchdog.h"
 using namespace photon;
 
 struct Rec { int kind; int t; long a; long b; };
@@ -84,15 +86,13 @@ static void dump_log() {
         } }
 }
 static void finish(const char* res) { dump_log(); printf("%s\n", res); fflush(stdout); _exit(0); }
-static long alarm_seen = -1; static int alarm_ticks = 0;
-// every 10 s: no progress since the last tick = stuck (the in-program watchdog cannot run if its own vCPU is stuck);
-// still progressing after 300 s = the machine is too loaded to judge (result slow: inconclusive, not a violation)
-static void on_alarm(int) {
-    long p = progress.load();
-    if (p == alarm_seen) { dump_log(); printf("stalled no progress for 10 s of real time (progress=%ld)\nresult hung\n", p); fflush(stdout); _exit(0); }
-    alarm_seen = p;
-    if (++alarm_ticks >= 30) { dump_log(); printf("result slow\n"); fflush(stdout); _exit(0); }
-    alarm(10);
+// hang / slow verdicts: watchdog.h (no progress in 2 windows of 10 s in which the machine ran every thread = hung - the in-program watchdog cannot
+// run if its own vCPU is stuck; no verdict after 300 s = the machine is too loaded to judge: result slow, inconclusive, not a violation)
+static long wd_progress() { return progress.load(); }
+static void on_verdict(const char* result) {
+    dump_log(); wd::print_diag();
+    if (!strcmp(result, "result hung")) printf("stalled no progress for 20 s of real time in which every thread ran or slept voluntarily (progress=%ld)\n", wd_progress());
+    printf("%s\n", result); fflush(stdout); _exit(0);
 }
 static void on_segv(int sig) { dump_log(); printf("result crashed signal=%d\n", sig); fflush(stdout); _exit(0); }
 
@@ -349,7 +349,7 @@ static void cond_consumer(int c) {
 }
 
 static int run_program(const std::vector<std::string>& lines) {
-    signal(SIGSEGV, on_segv); signal(SIGABRT, on_segv); signal(SIGALRM, on_alarm); alarm(10);
+    signal(SIGSEGV, on_segv); signal(SIGABRT, on_segv); wd::start(wd_progress, on_verdict);
     set_log_output(log_output_null);
     logbuf = new Rec[MAXLOG];
     std::istringstream is(lines.empty() ? "" : lines[0]); std::string kind; is >> kind;
@@ -440,6 +440,7 @@ static int run_program(const std::vector<std::string>& lines) {
         long p = progress.load();
         if (p == last) stalled++; else stalled = 0;
         last = p;
+        if (stalled >= 30 && !wd::confirm_stall(3)) stalled = 0;      // progress resumed, or the machine did not run some thread
         if (stalled >= 30) { dump_log(); printf("q %ld\nstalled finished=%d of %d progress=%ld\nresult hung\n", faket, finished_threads.load(), total_threads, p); fflush(stdout); _exit(0); }
     }
     sem_stop = true;
